@@ -657,9 +657,24 @@ func genScenario(rng *rand.Rand, id int) *Scenario {
 		sc.Nodes = append(sc.Nodes, n)
 		bp = n.Name
 	}
-	// optional third sibling of a1 / b1
-	if rng.Intn(3) == 0 {
-		sc.Nodes = append(sc.Nodes, NodeSpec{Name: "c1", Parent: fp, QN: uint64(1 + rng.Intn(8)), PV: int64(90 + rng.Intn(5)*20), NTx: 1})
+	// extra siblings at random fork depths whose weight is within +-2 QN of the main head and whose
+	// prove value is below / equal to / above the canonical successor's: every delivery of one of
+	// them is a fork-choice decision (lower, tie broken by prove value or hash, higher)
+	nsib := 2 + rng.Intn(4)
+	for k := 1; k <= nsib; k++ {
+		ff := rng.Intn(la)
+		pp := "g"
+		if ff > 0 {
+			pp = a[ff-1].Name
+		}
+		q := int64(headQN) - int64(tq[pp]) + int64([]int{-2, -1, 0, 0, 0, 1, 2}[rng.Intn(7)])
+		if q < 1 {
+			q = 1
+		}
+		sc.Nodes = append(sc.Nodes, NodeSpec{Name: fmt.Sprintf("c%d", k), Parent: pp, QN: uint64(q), PV: a[ff].PV + int64(rng.Intn(3)-1)*10, NTx: rng.Intn(2), Gap: uint64(rng.Intn(4) / 3)})
+		if rng.Intn(4) == 0 {
+			sc.Nodes = append(sc.Nodes, NodeSpec{Name: fmt.Sprintf("c%dx", k), Parent: fmt.Sprintf("c%d", k), QN: uint64(1 + rng.Intn(3)), PV: 120, NTx: 1})
+		}
 	}
 	real := append([]NodeSpec{}, sc.Nodes...)
 	// probes: one valid child per block (and genesis)
@@ -675,18 +690,21 @@ func genScenario(rng *rand.Rand, id int) *Scenario {
 	for _, n := range real {
 		order = append(order, n.Name)
 	}
-	shape := []string{"A-then-B", "B-first", "shuffled", "orphans-first", "A-then-B-dups"}[rng.Intn(5)]
+	shape := []string{"A-then-B", "A-then-B", "A-then-shuffled", "B-first", "shuffled", "orphans-first", "A-then-B-dups"}[rng.Intn(7)]
 	switch shape {
 	case "B-first":
 		var bs, as []string
 		for _, n := range order {
-			if n[0] == 'b' {
+			if n[0] != 'a' {
 				bs = append(bs, n)
 			} else {
 				as = append(as, n)
 			}
 		}
 		order = append(bs, as...)
+	case "A-then-shuffled":
+		rest := order[la:]
+		rng.Shuffle(len(rest), func(i, j int) { rest[i], rest[j] = rest[j], rest[i] })
 	case "shuffled":
 		rng.Shuffle(len(order), func(i, j int) { order[i], order[j] = order[j], order[i] })
 	case "orphans-first":
